@@ -15,8 +15,11 @@ RULE = (
     'raw histories with 1-3 times over ALL 24 variable trees of nesting <= 2 '
     'on keys {a, b}; cell values {0, False, "", [], 1.5, "x", [1, 2], a '
     'quantity}: every assignment when there are <= 4 cells, otherwise '
-    'every assignment with <= 2 cells deviating from a filler; ALL query '
-    'sets over the leaf paths plus one absent path. Pushed through '
+    'every assignment with <= 2 cells deviating from a filler; ordered '
+    'query sets over ALL node paths (stores and variables) plus one absent '
+    'path (singles, ordered pairs, everything in both orders, all subsets '
+    'on small histories); every placement of reads between emits, also '
+    'with rows split over two emits at one time. Pushed through '
     'RAMEmitter.emit (serialisation) and the pure conversion functions. '
     'A case is one (history, query set); non-trivial when a falsy value or '
     'a quantity occurs.')
@@ -66,6 +69,35 @@ def absent_path(shape):
     return ('zz', 'q')
 
 
+def node_paths(shape, path=()):
+    """All paths naming a store (branch) or a variable (leaf)."""
+    out = []
+    for k, v in shape.items():
+        out.append(path + (k,))
+        if isinstance(v, dict):
+            out += node_paths(v, path + (k,))
+    return out
+
+
+def query_sets(shape, full):
+    """Ordered queries over all node paths plus one absent path: every
+    single path, every ordered pair, the full set in both orders (and,
+    when ``full``, every subset in listing order)."""
+    qp = node_paths(shape) + [absent_path(shape)]
+    out = [(p,) for p in qp]
+    pairs = [tuple(c) for c in itertools.permutations(qp, 2)]
+    if not full:
+        # on large histories only ancestor/descendant pairs, both orders
+        pairs = [(a, b) for a, b in pairs
+                 if a[:len(b)] == b or b[:len(a)] == a]
+    out += pairs
+    out += [tuple(qp), tuple(reversed(qp))]
+    if full:
+        out += [tuple(c) for k in range(3, len(qp))
+                for c in itertools.combinations(qp, k)]
+    return out
+
+
 def build_row(paths, vals):
     row = {}
     for p, v in zip(paths, vals):
@@ -76,8 +108,11 @@ def build_row(paths, vals):
     return row
 
 
+FULL_LIMIT = {'v': 4096}
+
+
 def assignments(n_cells, max_dev):
-    if len(VALUES) ** n_cells <= 4096:
+    if len(VALUES) ** n_cells <= FULL_LIMIT['v']:
         yield from itertools.product(VALUES, repeat=n_cells)
         return
     base = [FILLER] * n_cells
@@ -176,9 +211,16 @@ def check_history(shape_idx, paths, times, cells, acc, queries):
             return
         for t, row in zip(times, rows):
             have = flatten(got[t]) if isinstance(got[t], dict) else {}
-            have = {p: v for p, v in have.items()}
-            want = {tuple(p): get(row, p) for p in q
-                    if get(row, p) is not MISSING}
+            want = {}
+            for qpath in q:
+                sub = get(row, qpath)
+                if sub is MISSING:
+                    continue
+                if isinstance(sub, dict):
+                    for lp, lv in flatten(sub).items():
+                        want[tuple(qpath) + lp] = lv
+                else:
+                    want[tuple(qpath)] = sub
             if set(have) != set(want):
                 missing = sorted(set(want) - set(have))
                 extra = sorted(set(have) - set(want))
@@ -196,6 +238,75 @@ def check_history(shape_idx, paths, times, cells, acc, queries):
                       f'query {q} at t={t}: {p} = {have[p]!r}, emitted '
                       f'{want[p]!r}')
                     return
+    # queries must not have modified the stored history
+    raw2 = em.get_data_deserialized()
+    for t, row in zip(times, rows):
+        for p in paths:
+            if not same(get(raw2.get(t, {}), p), get(row, p)):
+                V('C18.query', 'query-modified-stored-history',
+                  f'after the queries raw[{t}]{p} = '
+                  f'{get(raw2.get(t, {}), p)!r}, emitted {get(row, p)!r}')
+                return
+    # reads interleaved with emits do not change what later reads return
+    if len(cells) <= 4:
+        interleaved(paths, times, rows, V)
+
+
+def views(em):
+    return (em.get_data_deserialized(), em.get_timeseries(),
+            em.get_path_timeseries(), em.get_data_unitless())
+
+
+def same_view(a, b):
+    if isinstance(a, dict) and isinstance(b, dict):
+        return list(a) == list(b) and all(same_view(a[k], b[k]) for k in a)
+    if isinstance(a, (list, tuple)) and isinstance(b, (list, tuple)):
+        return len(a) == len(b) and all(
+            same_view(x, y) for x, y in zip(a, b))
+    return same(a, b)
+
+
+def interleaved(paths, times, rows, V):
+    """Every placement of reads between emits, also with each row split
+    over two emit() calls at the same time key."""
+    half = max(1, len(paths) // 2)
+    for split in (False, True):
+        steps = []
+        for t, row in zip(times, rows):
+            if split and len(paths) >= 2:
+                first = build_partial(row, paths[:half])
+                second = build_partial(row, paths[half:])
+                steps.append(dict(first, time=t))
+                steps.append(dict(second, time=t))
+            else:
+                steps.append(dict(row, time=t))
+        ref_em = RAMEmitter({'type': 'timeseries'})
+        for st in steps:
+            ref_em.emit({'table': 'history', 'data': dict(st)})
+        want = views(ref_em)
+        for mask in range(1, 1 << len(steps)):
+            em = RAMEmitter({'type': 'timeseries'})
+            for i, st in enumerate(steps):
+                em.emit({'table': 'history', 'data': dict(st)})
+                if mask >> i & 1:
+                    views(em)
+            got = views(em)
+            if not same_view(got, want):
+                V('C18.history', 'earlier-read-changes-later-read',
+                  f'rows {rows} (split={split}): reading after emits '
+                  f'{[i for i in range(len(steps)) if mask >> i & 1]} '
+                  f'changes the final views')
+                return
+
+
+def build_partial(row, some_paths):
+    out = {}
+    for p in some_paths:
+        node = out
+        for k in p[:-1]:
+            node = node.setdefault(k, {})
+        node[p[-1]] = get(row, p)
+    return out
 
 
 def check_columns(cols, paths, rows, times, V, where):
@@ -250,13 +361,11 @@ def check_columns(cols, paths, rows, times, V, where):
 
 
 def run_job(job, acc):
-    shape_idx, n_times, max_dev = job
+    shape_idx, n_times, max_dev, limit = job
+    FULL_LIMIT['v'] = limit
     shape = tree_shapes()[shape_idx]
     paths = leaf_paths(shape)
     times = [float(i) for i in range(n_times)]
-    qpaths = paths + [absent_path(shape)]
-    queries = [tuple(c) for k in range(1, len(qpaths) + 1)
-               for c in itertools.combinations(qpaths, k)]
     first = True
     for cells in assignments(len(paths) * n_times, max_dev):
         acc.case(key=('history', shape_idx, n_times, cells),
@@ -264,8 +373,8 @@ def run_job(job, acc):
                                 for c in cells))
         # all query sets on histories with <= 2 cells; a covering subset
         # (singletons, pairs, everything) on larger ones
-        qs = queries if len(cells) <= 4 else [
-            q for q in queries if len(q) <= 1 or len(q) == len(qpaths)]
+        qs = query_sets(shape, full=len(cells) <= (3 if limit < 4096
+                                                   else 4))
         check_history(shape_idx, paths, times, cells, acc, qs)
         if first and len(acc.samples) < 3 and len(paths) >= 2:
             acc.sample({'shape': shape, 'times': times,
@@ -275,7 +384,7 @@ def run_job(job, acc):
 
 def run(ctx):
     b = BOUNDS[ctx.tier]
-    jobs = [(i, t, b['deviating_cells'])
+    jobs = [(i, t, b['deviating_cells'], 512 if ctx.quick else 4096)
             for i in range(len(tree_shapes()))
             for t in range(1, b['times'] + 1)]
     return ctx.map(run_job, jobs, chunk=1)
@@ -285,9 +394,6 @@ def replay(case):
     acc = fw.Acc()
     shape = tree_shapes()[case['shape']]
     paths = leaf_paths(shape)
-    qpaths = paths + [absent_path(shape)]
-    queries = [tuple(c) for k in range(1, len(qpaths) + 1)
-               for c in itertools.combinations(qpaths, k)]
     check_history(case['shape'], paths, case['times'],
-                  tuple(case['cells']), acc, queries)
+                  tuple(case['cells']), acc, query_sets(shape, True))
     return [v for exs in acc.viol_examples.values() for v in exs]
